@@ -12,10 +12,8 @@ compiler/circuits and evaluated with `Circuit.Compute`).
 The small path is modelled on `BitVec 64` with Go's wrap / truncated
 division / shift semantics.  The large path is modelled at the arithmetic
 level (what the adder / subtractor / multiplier / signed divider circuits
-compute for the given operand widths, including the `Compile` panic
-"Output already assigned" that the adder and the subtractor provoke when the
-result is more than one bit wider than the operands); the builders themselves
-are the subject of C07.  `Option` = a Go panic.
+compute for the given operand widths); the builders themselves are the
+subject of C07.  `Option` = a Go panic.
 -/
 
 namespace Mpc.Mpa
@@ -138,32 +136,26 @@ def cmp (z x : MInt) : Option Int :=
 /-- The `w` input wires fed by `Compute` from a big integer. -/
 def wires (v : Int) (w : Nat) : Nat := (v % (2 ^ w : Nat)).toNat
 
-/-- `bin(NewAdder)`: ripple adder on operands zero-padded to `m`; result wires
-above `m+1` are replaced by the zero wire, which makes `Compile` panic because
-they are declared outputs. -/
+/-- `bin(op)`: since repo d31d09e both operands are fed at the RESULT width
+`nz = max(x.bits, y.bits, z.bits)` (`Compute` reads the bits of the big values:
+zero extension, two's complement for negative values), so adder, subtractor and
+(Karatsuba, `nz > 64`) multiplier are exact mod 2^nz and replace no declared
+output wire.  (Before: operands at their own widths; adder / subtractor made
+`Compile` panic "Output already assigned" for `nz > max(x.bits, y.bits) + 1`.) -/
 def largeAdd (xb yb zb : Nat) (x y : Int) : Option MInt :=
   let nz := max (max xb yb) zb
-  let m := max xb yb
-  if nz > m + 1 then none
-  else some { bits := nz, i64 := 0#64, big := some (((wires x xb + wires y yb) % 2 ^ nz : Nat) : Int) }
+  some { bits := nz, i64 := 0#64, big := some (((wires x nz + wires y nz) % 2 ^ nz : Nat) : Int) }
 
 /-- `bin(NewSubtractor)` -/
 def largeSub (xb yb zb : Nat) (x y : Int) : Option MInt :=
   let nz := max (max xb yb) zb
-  let m := max xb yb
-  if nz > m + 1 then none
-  else some { bits := nz, i64 := 0#64,
-              big := some ((((wires x xb : Nat) : Int) - (wires y yb : Nat)) % ((2 ^ nz : Nat) : Int)) }
+  some { bits := nz, i64 := 0#64,
+         big := some ((((wires x nz : Nat) : Int) - (wires y nz : Nat)) % ((2 ^ nz : Nat) : Int)) }
 
-/-- `bin(NewMultiplier(cc, 0, …))`: Karatsuba, except that operands with
-`x.bits ≤ 15` and `max ≤ 21` go to the array multiplier directly, which
-replaces declared output wires by the zero wire when the result is wider than
-`2·max` (1-bit operands: wider than 1) -> `Compile` panics. -/
+/-- `bin(NewMultiplier(cc, 0, …))` -/
 def largeMul (xb yb zb : Nat) (x y : Int) : Option MInt :=
   let nz := max (max xb yb) zb
-  let m := max xb yb
-  if xb ≤ 15 ∧ m ≤ 21 ∧ ((m = 1 ∧ nz > 1) ∨ (m ≥ 2 ∧ nz > 2 * m)) then none
-  else some { bits := nz, i64 := 0#64, big := some (((wires x xb * wires y yb) % 2 ^ nz : Nat) : Int) }
+  some { bits := nz, i64 := 0#64, big := some (((wires x nz * wires y nz) % 2 ^ nz : Nat) : Int) }
 
 /-- Unsigned long division circuit (`NewUDividerLong`): by zero the quotient
 is all ones and the remainder the dividend. -/
@@ -191,8 +183,9 @@ def largeDivMod (xb yb : Nat) (x y : Int) : Nat × Nat × Nat :=
 
 /-! ## Arithmetic methods `z.Op(x, y)`; `alias` says that `z` is `x` itself -/
 
+/-- Since repo de91761 `Add` keeps the receiver's width like `Sub` and `Mul` (before: `z.bits = max(x.bits, y.bits)`). -/
 def add (z x y : MInt) : Option MInt :=
-  if z.isSmall then setSmall (max x.bits y.bits) (x.small + y.small)
+  if z.isSmall then setSmall z.bits (x.small + y.small)
   else largeAdd x.bits y.bits z.bits x.bigv y.bigv
 
 def sub (z x y : MInt) : Option MInt :=
